@@ -5,6 +5,7 @@ package main
 import (
 	"crypto/x509"
 	"fmt"
+	"strings"
 	"math/big"
 	"math/rand"
 	"os"
@@ -275,10 +276,12 @@ func main() {
 	}
 	// end entity signs the CRL for its own CDP: issuer = its subject
 	if si == 0%sn || true {
-		for _, aki := range []string{"absent", "keyId"} {
-			aki := aki
+		for _, variant := range []string{"absent/bc+ku", "keyId/bc+ku", "absent/no-bc", "keyId/no-bc", "absent/no-bc-no-ku", "keyId/no-bc-no-ku", "keyId/bc-no-ku"} {
+			aki := strings.SplitN(variant, "/", 2)[0]
+			shape := strings.SplitN(variant, "/", 2)[1]
 			ok, _ := l.inForceFor(nil, func(url string) (*x509.Certificate, []*x509.Certificate) {
-				ee := ecInt.Issue(pki.CertOpts{CN: fmt.Sprintf("c04 self-serving end entity %d", rng.Int63()), CDP: []string{url}})
+				ee := ecInt.Issue(pki.CertOpts{CN: fmt.Sprintf("c04 self-serving end entity %d", rng.Int63()), CDP: []string{url},
+					NoBasicConstraints: strings.Contains(shape, "no-bc"), NoKeyUsage: strings.Contains(shape, "no-ku")})
 				s := gen.SpecFor(ee, nil)
 				s.Exts = [][]byte{crlgen.CRLNumberExt(big.NewInt(1))}
 				if aki == "keyId" {
@@ -289,9 +292,9 @@ func main() {
 				return ee.Cert, []*x509.Certificate{ee.Cert, ecInt.Cert, root.Cert}
 			})
 			run.Eval(1)
-			desc := "CRL issued under the client certificate's own subject and signed with the client's own key, aki=" + aki
+			desc := "CRL issued under the client certificate's own subject and signed with the client's own key, aki=" + aki + " end-entity-extensions=" + shape
 			if ok {
-				run.Violation("signer-end-entity-own-key.aki-"+aki, desc+" came into force", &report.Replay{Case: desc})
+				run.Violation("signer-end-entity-own-key.aki-"+aki+"."+shape, desc+" came into force", &report.Replay{Case: desc})
 			} else {
 				run.NonTrivial(desc)
 			}
